@@ -201,7 +201,7 @@ template <class T> static void procrustes (Gen<T>& g, int it)
     static const double R0[4][9] = {{1, 0, 0, 0, 1, 0, 0, 0, 1}, {0, 1, 0, -1, 0, 0, 0, 0, 1}, {0.6, 0.8, 0, -0.8, 0.6, 0, 0, 0, 1}, {0, 0, 1, 1, 0, 0, 0, 1, 0}};
     int ri = it % 4;
     int npts = 1 + (it % 7);
-    int shape = (it / 7) % 4;          // 0 generic, 1 collinear, 2 coplanar, 3 with zero weights
+    int shape = (it / 7) % 5;          // 0 generic, 1 collinear, 2 coplanar, 3 with zero weights, 4 coincident 'from' points (no spread)
     bool scaling = (it % 2) == 1;
     double sc = scaling ? 2.0 : 1.0;
     std::vector<Vec3<T>> A (npts), Bp (npts);
@@ -212,6 +212,7 @@ template <class T> static void procrustes (Gen<T>& g, int it)
         Vec3<T> p ((T) g.smallInt (), (T) g.smallInt (), (T) g.smallInt ());
         if (shape == 1) p = Vec3<T> ((T) i, (T) (2 * i), (T) (-i));
         if (shape == 2) p.z = 0;
+        if (shape == 4 && i > 0) p = A[0];
         A[i] = p;
         Vec3<T> q;
         for (int j = 0; j < 3; ++j) q[j] = (T) (sc * (p.x * R0[ri][0 * 3 + j] + p.y * R0[ri][1 * 3 + j] + p.z * R0[ri][2 * 3 + j])) + tr[j];
